@@ -226,9 +226,33 @@ func (r *Replica) apply(idx int, data []byte) (res int) {
 	return 0
 }
 
+// applyBatch feeds a run of entries through storeFSM.ApplyBatch; results as apply (a panic marks the whole run)
+func (r *Replica) applyBatch(first int, datas [][]byte) (res []int) {
+	defer func() {
+		if e := recover(); e != nil {
+			res = make([]int, len(datas))
+			for i := range res {
+				res[i] = 2
+			}
+		}
+	}()
+	logs := make([]*raft.Log, len(datas))
+	for i, d := range datas {
+		logs[i] = &raft.Log{Index: uint64(first + i + 2), Term: 1, Type: raft.LogCommand, Data: d}
+	}
+	out := r.fsm.ApplyBatch(logs)
+	res = make([]int, len(datas))
+	for i := range out {
+		if out[i] != nil {
+			res[i] = 1
+		}
+	}
+	return res
+}
+
 type Divergence struct {
 	Step  int    `json:"step"`
-	Pair  string `json:"pair"`  // "A-D" (same log, no snapshot), "A-C@restore" (right after restore vs A at the snapshot position) or "A-C"
+	Pair  string `json:"pair"`  // "A-D" (same log, no snapshot), "A-C@restore" (right after restore vs A at the snapshot position), "A-C", "A-B" (B applies in batches: ApplyBatch), "A-R" (R snapshots, persists and restores in place after every command)
 	Class string `json:"class"` // the differing path with container keys abstracted, or "result:<command kind>"
 	Path  string `json:"path"`  // first concrete path (with both values)
 }
@@ -250,6 +274,7 @@ type Case struct {
 	Log     []string     `json:"log"` // base64 of the marshalled commands
 	SnapAt  int          `json:"snap_at"`
 	Delay   int          `json:"delay"`
+	Batch   []int        `json:"batch,omitempty"` // sizes of the runs of entries replica B receives through storeFSM.ApplyBatch (cyclic)
 	Res     []int        `json:"res"`
 	Div     []Divergence `json:"div"`
 	NonTriv bool         `json:"nontrivial"`
@@ -276,6 +301,11 @@ func persistRestore(cs *Case, snap raft.FSMSnapshot, atSnap any, report func(int
 func runCase(cs *Case) {
 	curConf = cs.Conf
 	A, D := newReplica(cs.PtPer), newReplica(cs.PtPer)
+	B, R := newReplica(cs.PtPer), newReplica(cs.PtPer)
+	if len(cs.Batch) == 0 {
+		cs.Batch = []int{2, 3, 1, 4}
+	}
+	bi, bstart, bend := 0, 0, 0 // index into cs.Batch, first entry of the current run, end (exclusive) of the current run
 	var C *Replica
 	var snap raft.FSMSnapshot
 	var logs [][]byte
@@ -316,6 +346,37 @@ func runCase(cs *Case) {
 		var ps []string
 		diff(da, dumpData(D.fsm.Data()), "", &ps, 40)
 		report(i, "A-D", ps)
+		// R: the same command, then Snapshot -> Persist -> Restore in place (what a follower does when the leader sends it a snapshot)
+		if rr := R.apply(i, b); rr != ra {
+			report(i, "A-R", []string{"result:" + cs.Cmds[i].K})
+		}
+		if ra != 2 {
+			if R.restoreInPlace() != 0 {
+				report(i, "A-R", []string{"result:restore"})
+			}
+			var pr []string
+			diff(da, dumpData(R.fsm.Data()), "", &pr, 40)
+			report(i, "A-R", pr)
+		}
+		// B: runs of entries through ApplyBatch; compared at the end of each run
+		if i == bend {
+			bstart, bend = i, i+cs.Batch[bi%len(cs.Batch)]
+			bi++
+			if bend > len(logs) {
+				bend = len(logs)
+			}
+		}
+		if i+1 == bend {
+			rb := B.applyBatch(bstart, logs[bstart:bend])
+			for j, x := range rb {
+				if x != cs.Res[bstart+j] {
+					report(bstart+j, "A-B", []string{"result:" + cs.Cmds[bstart+j].K})
+				}
+			}
+			var pb []string
+			diff(da, dumpData(B.fsm.Data()), "", &pb, 40)
+			report(i, "A-B", pb)
+		}
 		if snap != nil && C == nil && i+1 >= cs.SnapAt+cs.Delay {
 			// persist now (Delay commands after the snapshot was taken) and restore into a fresh replica
 			C = persistRestore(cs, snap, atSnap, report)
@@ -452,7 +513,7 @@ func genCmd(r *gen.Rand, d *meta2.Data) Cmd {
 		return uint64(r.Intn(6))
 	}
 	sgd := []int64{0, Hour, Hour, 2 * Hour, 24 * Hour, 7 * 24 * Hour}
-	k := r.Intn(216)
+	k := r.Intn(228)
 	if len(d.DataNodes) == 0 && r.Chance(3, 4) {
 		k = 0
 	} else if len(dbs) == 0 && r.Chance(2, 3) {
@@ -656,7 +717,16 @@ func genCmd(r *gen.Rand, d *meta2.Data) Cmd {
 		return []Cmd{{K: "urepl", DB: 0, Pt: 0, Status: 0}, {K: "insfiles"}, {K: "rmevent", S1: "db1$0"}}[r.Intn(3)]
 	default:
 		// the remaining command kinds; arguments that would dereference a missing database or policy are not produced
-		switch r.Intn(9) {
+		switch r.Intn(10) {
+		case 9:
+			// RecoverMetaData from a backup (the payload is the scratch replica's catalogue as JSON): whole catalogue or one database
+			if d.PtView != nil {
+				c := Cmd{K: "recover"}
+				if len(dbs) > 0 && r.Bool() {
+					c.DB = gen.Pick(r, dbs)
+				}
+				return c
+			}
 		case 0:
 			if len(pairs) > 0 {
 				q := gen.Pick(r, pairs)
@@ -725,6 +795,20 @@ func buildCmd(c *Cmd, scratch *meta2.Data) []byte {
 	var pc *proto2.Command
 	if c.K == "setdata" {
 		pc = metacmd.MkCmd(proto2.Command_SetDataCommand, proto2.E_SetDataCommand_Command, &proto2.SetDataCommand{Data: scratch.Marshal()})
+	} else if c.K == "recover" {
+		js, err := json.Marshal(scratch)
+		if err != nil {
+			panic(err)
+		}
+		nm := map[uint64]uint64{}
+		for _, n := range scratch.DataNodes {
+			nm[n.ID] = n.ID
+		}
+		v := &proto2.RecoverMetaDataCommand{MetaData: js, NodeMap: nm}
+		if c.DB > 0 {
+			v.Databases = []string{metacmd.DBName(c.DB)}
+		}
+		pc = metacmd.MkCmd(proto2.Command_RecoverMetaData, proto2.E_RecoverMetaDataCommand_Command, v)
 	} else {
 		pc = metacmd.Build(c)
 	}
@@ -738,6 +822,9 @@ func buildCmd(c *Cmd, scratch *meta2.Data) []byte {
 func genCase(r *gen.Rand, idx int) *Case {
 	cs := &Case{Name: fmt.Sprintf("gen-%d", idx), PtPer: r.Range(1, 2)}
 	cs.Conf = Conf{Expand: r.Chance(1, 2), NoAuto: r.Chance(1, 4), NoInc: r.Chance(1, 4), NoClean: r.Chance(1, 4)}
+	for k := r.Range(1, 4); k > 0; k-- {
+		cs.Batch = append(cs.Batch, r.Range(1, 5))
+	}
 	curConf = cs.Conf
 	// the generator consults a scratch replica to pick mostly-valid arguments
 	S := newReplica(cs.PtPer)
